@@ -193,7 +193,7 @@ package inode
 // I4/I-dir (global invariant, assumed at the load side; the store side is checked in dir.AddNameDir/RemNameDir):
 // a directory has no holes, its size is a multiple of the entry size and every entry's name length is at most 112.
 //@   assumes [Fn1-content] forall i uint64 :: i < len(result0) ==> result0[i] == fdata[ip.Inum][offset + i]
-//@   assumes [I4-dirslots] ip.Kind == 2 && offset < ip.Size && offset & 127 == 0 && bytesToRead == 128 ==> len(result0) == 128 && le64(result0, 8) <= 112 && fresh(result0) && le64(result0, 0) == dslot[ip.Inum][offset]
+//@   assumes [I4-dirslots] ip.Kind == 2 && offset < ip.Size && offset & 127 == 0 && bytesToRead == 128 ==> len(result0) == 128 && le64(result0, 8) <= 112 && fresh(result0) && le64(result0, 0) == dslot[ip.Inum][offset] && dslot[ip.Inum][offset] < 32768 && (dslot[ip.Inum][offset] != 0 ==> liveinum[dslot[ip.Inum][offset]])
 //@   ensures ip.Size == old(ip.Size)
 //@   ensures [S1-synced] (!dirtyinum[ip.Inum] || old(dirtyinum)[ip.Inum]) && othersClean(ip) @C10
 //@   ensures [I1-inode] inodeInv(ip) @C04
